@@ -57,6 +57,15 @@ func omnibus(run *Run, o Omni, visit Visit) {
 			}
 		}
 		scs = append(scs, blockAddrScenario(r))
+		if bi%3 == 0 {
+			// fixed-value constraints of every shape against matching / wrong-typed / surplus written values, every
+			// cursor offset (own random stream: the scenarios above and below do not move)
+			lf := literalValueFocusScenario(rand.New(rand.NewSource(subSeed(run.Res.Seed, 777000+bi))))
+			for off := 0; off <= len(lf.Src); off++ {
+				lf.Offsets = append(lf.Offsets, off)
+			}
+			scs = append(scs, lf)
+		}
 		// JSON renderings of the first (complete) configuration, plain and with hostile strings
 		if len(scs) > 0 {
 			for _, hostile := range []bool{false, true} {
